@@ -298,12 +298,22 @@ fn main() {
                                 let req: serde_json::Value = serde_json::from_slice(&msg[..msg.len() - 1]).unwrap_or(serde_json::Value::Null);
                                 let mut out = serde_json::to_vec(&json!({"parameters": {"token": req["parameters"]["token"]}})).unwrap();
                                 out.push(0);
+                                // a token starting with "late": the greeting follows 300 ms after the reply
+                                let late = req["parameters"]["token"].as_str().map(|t| t.starts_with("late")).unwrap_or(false);
                                 if req["upgrade"] == json!(true) {
-                                    out.extend_from_slice(vl_tsvc::GREETING);
+                                    if !late {
+                                        out.extend_from_slice(vl_tsvc::GREETING);
+                                    }
                                     upgraded = true;
                                 }
                                 if req["oneway"] != json!(true) && c.write_all(&out).is_err() {
                                     break;
+                                }
+                                if upgraded && late {
+                                    std::thread::sleep(std::time::Duration::from_millis(300));
+                                    if c.write_all(vl_tsvc::GREETING).is_err() {
+                                        break;
+                                    }
                                 }
                                 continue;
                             }
